@@ -163,7 +163,7 @@ class Vanilla(Payoff):
         :param payoff_type: payoff type
         """
         super().__init__()
-        self.strike = strike
+        self.strike = strike if isinstance(strike, Real) else np.array(strike)
         self.payoff_type = payoff_type
 
         if payoff_type == PayoffType.CALL:
